@@ -18,10 +18,12 @@ QuickReceivers == <<1, 2, 3, 5, 6, 7, 9, 10, 11>>          \* indexes into Recei
 WHalf == <<16352, 0, 0, 0>>
 W1p5  == <<16376, 0, 0, 0>>
 W2p31 == <<16864, 0, 0, 0>>
-W2p53 == <<17200, 0, 0, 0>>
+W2p53 == <<17216, 0, 0, 0>>
+W65539 == <<16624, 48, 0, 0>>            \* 65539 = 0x10003
 NumGrid == {WNaN, WPosInf, WNegInf, WOfInt(-1), WPosZero, WNegZero, WOfInt(1), WOfInt(2), WOfInt(3), WOfInt(4),
-            WOfInt(6), WOfInt(7), WOfInt(17), WHalf, WNeg(WHalf), W1p5, W2p31, WNeg(W2p31), W2p53, WOfInt(-2), WOfInt(-7)}
-QuickNumGrid == {WNaN, WPosInf, WNegInf, WOfInt(-1), WPosZero, WOfInt(1), WOfInt(3), WOfInt(6), WHalf, W2p31, WOfInt(-2)}
+            WOfInt(6), WOfInt(7), WOfInt(17), WOfInt(65), WOfInt(65535), WOfInt(65536), WOfInt(65601), WOfInt(-65), WHalf, WNeg(WHalf), W1p5, WNeg(W1p5), W2p31, WNeg(W2p31), W2p53, WOfInt(-2), WOfInt(-7)}
+W1p5neg == WNeg(W1p5)
+QuickNumGrid == {WNaN, WPosInf, WNegInf, WOfInt(-1), WPosZero, WOfInt(1), WOfInt(3), WOfInt(6), WHalf, WNeg(WHalf), W1p5neg, W2p31, WOfInt(-2)}
 IndexArgs(q) == {Undef, Null, VBool(TRUE), VStr(U("1")), VStr(U("x")), VStr(<<>>), VObj(<<>>), VArr(<<>>)}
                   \cup {VNumW(w) : w \in (IF q THEN QuickNumGrid ELSE NumGrid)}
 TextArgs(q) == {Undef, Null, VBool(FALSE), VStr(<<>>), VStr(U("a")), VStr(U("b")), VStr(U("bc")), VStr(U("abc")),
